@@ -335,16 +335,16 @@ def _shapes_c04_4(tier):
         add("hrr", "s", 0, 96, 16)
         add("hrr", "c", 352, 704, 2, 32)
     else:
-        add("hrr", "s", 0, 400, 8)
+        # sized to about half an hour on 16 cores: the first thorough sizing
+        # (every offset of every stream, 612 jobs of up to 50 minutes) was
+        # stopped after two hours
+        add("hrr", "s", 0, 400, 16)
         # the first ClientHello of the retry flow has the layout of the PSK
         # ClientHello swept below: only the second one is swept here
-        add("hrr", "c", 352, 800, 2)
+        add("hrr", "c", 352, 800, 2, 8)
         add("psk_dhe", "s", 0, 288, 8)
-        add("psk_dhe", "c", 0, 352, 2)
-        add("cert", "s", 0, 1280, 16)
-        # client stream of the certificate handshake: ClientHello without the
-        # PSK extensions (a sub-layout of the PSK one) + Finished
-        add("cert", "c", 224, 320, 2)
+        add("psk_dhe", "c", 0, 352, 2, 4)
+        add("cert", "s", 0, 320, 16)
     return out
 
 
@@ -410,7 +410,7 @@ def check_views_agree(I, sc):
                 "sealed by an endpoint",
                 "TLS 1.3, psk_dhe_ke with an external PSK or RSA certificate "
                 "authentication, TLS_AES_128_GCM_SHA256, x25519, no tickets"],
-            patches=_pair_patches4, max_paths=8000, timeout=(600, 3000))
+            patches=_pair_patches4, max_paths=8000, timeout=(600, 900))
 def c04_4(I, shape):
     """whatever single byte an on-path attacker rewrites in either direction
     of a TLS 1.3 handshake, the two endpoints never both complete with
@@ -616,12 +616,11 @@ def _shapes_c04_6(tier):
         add("tls12-ecdhe-gcm", "s", 0, 1280, 4, 64)
         add("tls12-rsa-cbc", "c", 160, 480, 4, 64)
     else:
-        add("tls12-ecdhe-gcm", "c", 0, 320, 2)
-        add("tls12-ecdhe-gcm", "s", 0, 1280, 8)
-        add("tls12-rsa-cbc", "c", 0, 480, 2)
-        add("tls12-rsa-cbc", "s", 0, 1120, 8)
-        add("tls10-dhe-cbc", "c", 0, 480, 2)
-        add("tls10-dhe-cbc", "s", 0, 1600, 8)
+        add("tls12-ecdhe-gcm", "c", 0, 320, 2, 4)
+        add("tls12-ecdhe-gcm", "s", 0, 1280, 4, 16)
+        add("tls12-rsa-cbc", "c", 0, 480, 2, 8)
+        add("tls12-rsa-cbc", "s", 0, 1120, 4, 32)
+        add("tls10-dhe-cbc", "c", 0, 480, 2, 16)
     return out
 
 
@@ -691,7 +690,7 @@ def byte_tamper(I, shape, sc_factory):
                 "length bytes excepted); assumptions as in C04.4 plus "
                 "signature unforgeability (a signature verifies only over "
                 "data the key holder signed)"],
-            patches=_pair12_patches4, max_paths=8000, timeout=(600, 3000))
+            patches=_pair12_patches4, max_paths=8000, timeout=(600, 900))
 def c04_6(I, shape):
     """whatever single byte an on-path attacker rewrites in a TLS <= 1.2
     handshake, the endpoints never both complete with different views"""
@@ -721,7 +720,7 @@ def _mixed_settings():
 
 def _shapes_c04_7(tier):
     out = []
-    w, stride = (2, 16) if tier == "quick" else (2, 2)
+    w, stride = (2, 16) if tier == "quick" else (2, 4)
     for a in range(0, 400, stride):
         out.append(dict(dir="c", lo=a, hi=a + w))
     for a in range(0, 176, 16 if tier == "quick" else 8):
@@ -742,7 +741,7 @@ def _shapes_c04_7(tier):
                 "AES-128-CBC-SHA, ECDHE_RSA and RSA); one byte of either "
                 "hello flight rewritten to a symbolic different value; "
                 "assumptions as in C04.6"],
-            patches=_pair12_patches4, max_paths=8000, timeout=(600, 3000))
+            patches=_pair12_patches4, max_paths=8000, timeout=(600, 900))
 def c04_7(I, shape):
     """two endpoints that both support TLS 1.3 never complete at a lower
     version (or with different views) because a hello byte was rewritten"""
